@@ -374,7 +374,7 @@ pub fn run(ctx: &mut Ctx) {
             }
         }
     }
-    ctx.rule = format!("every implementation pair ({}) x compositions x T/Tref {:?} x eta {:?} x {{A, p, s, mu_i, all second-order keys, d2p_dv2, d2s_dt2}}; oracle: pairwise agreement within the pair's band (1e-13 wrappers, 1e-10 exact pairs + 1e-10 ideal-gas floor for functionals, 1e-3 for SAFT-VRQ Mie FH0 vs SAFT-VR Mie (different quadrature of the hard-sphere diameter, observed 1e-4)); closed-form vs iterative association on every dual part; PR vs SI closed form", ps.len(), t_factors(tier), eta_factors(tier));
+    ctx.rule = format!("every implementation pair ({}; incl. synthetic association schemes with unequal site counts and C sites, gc-PC-SAFT with binary segment records) x compositions x T/Tref {:?} x eta {:?} x {{A, p, s, mu_i, all second-order keys, d2p_dv2, d2s_dt2}}; oracle: pairwise agreement within the pair's band (1e-13 wrappers, 1e-10 exact pairs + 1e-10 ideal-gas floor for functionals, 1e-3 for SAFT-VRQ Mie FH0 vs SAFT-VR Mie (different quadrature of the hard-sphere diameter, observed 1e-4)); closed-form vs iterative association on every dual part; one C site = half of one A + one B site (PC-SAFT and SAFT-VR Mie); PR vs SI closed form", ps.len(), t_factors(tier), eta_factors(tier));
     ctx.extra("pairs", json!(ps.iter().map(|p| p.id.clone()).collect::<Vec<_>>()));
     ctx.run(&cases, |c| format!("{}|x={}|T={}|eta={}", c.pair.id, xs(&c.x), c.tf, c.eta), case);
     // association
